@@ -292,8 +292,8 @@ func (w *c13World) runPar2(dir string, d c13Desc, rng *rand.Rand) (tracelog.M, e
 	sort.Ints(exps)
 	return tracelog.M{"ev": "corrupt", "fmt": "par2", "desc": d, "index_intact": indexIntact, "index_present": files["index"] != nil,
 		"intact_exps": exps, "n": tr.N, "nocc": tr.NOcc, "nsurv": tr.NSurv,
-		"verify": tracelog.M{"err": vo.Err, "errtext": tail(vo.ErrText+vo.Panic, 100), "usable": vo.Usable, "unusable": vo.Unusable, "pusable": vo.PUsable, "needed": vo.Needed},
-		"repair": tracelog.M{"err": ro.Err, "errtext": tail(ro.ErrText+ro.Panic, 100), "repaired": ro.Repaired},
+		"verify":     tracelog.M{"err": vo.Err, "errtext": tail(vo.ErrText+vo.Panic, 100), "usable": vo.Usable, "unusable": vo.Unusable, "pusable": vo.PUsable, "needed": vo.Needed},
+		"repair":     tracelog.M{"err": ro.Err, "errtext": tail(ro.ErrText+ro.Panic, 100), "repaired": ro.Repaired},
 		"changed_ok": changedOK, "restored": restored, "outside": outside, "fatal": false, "ms": ms, "rss_kb": peakRSSKB()}, nil
 }
 
@@ -406,8 +406,8 @@ func (w *c13World) runPar1(dir string, d c13Desc, rng *rand.Rand) (tracelog.M, e
 	}
 	return tracelog.M{"ev": "corrupt", "fmt": "par1", "desc": d, "index_intact": bytes.Equal(files["index"], w.a1.IndexB), "index_present": files["index"] != nil,
 		"intact_vols": intactVols, "intact_data": nIntactData, "n": len(w.names), "intact_exps": []int{}, "nocc": 0, "nsurv": 0,
-		"verify": tracelog.M{"err": vo.Err, "errtext": tail(vo.ErrText+vo.Panic, 100), "usable": vo.Usable, "unusable": vo.Unusable, "pusable": vo.PUsable, "needed": vo.Needed},
-		"repair": tracelog.M{"err": ro.Err, "errtext": tail(ro.ErrText+ro.Panic, 100), "repaired": ro.Repaired},
+		"verify":     tracelog.M{"err": vo.Err, "errtext": tail(vo.ErrText+vo.Panic, 100), "usable": vo.Usable, "unusable": vo.Unusable, "pusable": vo.PUsable, "needed": vo.Needed},
+		"repair":     tracelog.M{"err": ro.Err, "errtext": tail(ro.ErrText+ro.Panic, 100), "repaired": ro.Repaired},
 		"changed_ok": changedOK, "restored": restored, "outside": outside, "fatal": false, "ms": ms, "rss_kb": peakRSSKB()}, nil
 }
 
